@@ -5,6 +5,7 @@ the Lean model, which must produce the same event log, wire and final state (tra
 oracle parses the server-side byte stream independently."""
 import threading
 import types
+import zlib
 
 import refcodec as rc
 import sched as SC
@@ -92,6 +93,21 @@ def scenario(C, E, progs, choose, transport='plain', capw=300, capr=50, fine=Fal
         attached = isinstance(conn._write_lock, FLock)
         isock = SC.ISock(S)
         isock.fail_prefix = fail_prefix
+        # the transport is set up by the library's own _connect() (queue creation included) against a
+        # stand-in for the socket module whose socket() is the instrumented one
+        import socket as real_socket
+        isock.connect = lambda addr: None
+        isock.makefile = lambda *a, **k: SC.IFile()
+        fake_mod = types.SimpleNamespace(**{k: getattr(real_socket, k) for k in dir(real_socket) if not k.startswith('__')})
+        fake_mod.getaddrinfo = lambda *a, **k: [(real_socket.AF_INET, real_socket.SOCK_STREAM, 6, '', ('127.0.0.1', 1))]
+        fake_mod.socket = lambda *a, **k: isock
+        saved_socket_mod = C.socket
+        C.socket = fake_mod
+        try:
+            conn._connect()
+        finally:
+            C.socket = saved_socket_mod
+        via_connect = isinstance(conn._outgoing_packet_queue, IDeque) and conn.socket is isock
         conn.socket = isock
         secret = bytes(range(1, 17))
         if transport == 'encrypted':
@@ -99,7 +115,8 @@ def scenario(C, E, progs, choose, transport='plain', capw=300, capr=50, fine=Fal
             conn.socket = E.EncryptedSocketWrapper(isock, ciph.encryptor(), ciph.decryptor())
         conn.file_object = SC.IFile()
         conn.connected = True
-        conn._outgoing_packet_queue = IDeque()
+        if not via_connect:          # _connect() no longer builds the queue from the module-level deque
+            conn._outgoing_packet_queue = IDeque()
         conn.reactor = C.PlayingReactor(conn)
         if transport == 'compressed':
             conn.options.compression_enabled = True
@@ -128,7 +145,13 @@ def scenario(C, E, progs, choose, transport='plain', capw=300, capr=50, fine=Fal
         def user(tid, ops):
             def body():
                 for kind, arg in ops:
-                    if kind == 'D':
+                    if kind == 'z':
+                        # what the reactor does when it has read Set Compression (no lock involved)
+                        S.before('zon')
+                        conn.options.compression_threshold = arg
+                        conn.options.compression_enabled = True
+                        S.emit('zon')
+                    elif kind == 'D':
                         # what PlayingReactor does on a server disconnect: graceful, and if the flush
                         # fails, immediate
                         try:
@@ -172,7 +195,7 @@ def scenario(C, E, progs, choose, transport='plain', capw=300, capr=50, fine=Fal
         import collections
         queue_left = [x.pid for x in collections.deque.__iter__(conn._outgoing_packet_queue)]
         return dict(S=S, log=S.log, ran=S.ran, wire=isock.wire, closed=isock.closed, queue=queue_left,
-                    attached=attached, errors=S.errors, caller_errors=caller_errors, secret=secret, stuck=stuck,
+                    attached=attached and via_connect, errors=S.errors, caller_errors=caller_errors, secret=secret, stuck=stuck,
                     nt_slot=conn.networking_thread)
     finally:
         C.RLock, C.deque, C.select, C.Connection._write_packet = saved
@@ -368,6 +391,69 @@ def run(ctx):
         if r['errors'] and not failed:
             ctx.violation('%s: a thread raised: %r' % (label, r['errors'][:2]), {'programs': prog_str(progs), 'schedule': r['ran']},
                           key={'programs': prog_str(progs), 'schedule': r['ran'], 'kind': 'thread-error'})
+    # ---- compression switched on in mid-stream (the reactor has read Set Compression) while packets are
+    # queued / being forced: every frame whose first send comes after the switch must be in the compressed
+    # format, every earlier one in the plain format -- the peer parses strictly by that rule
+    for i in range(ctx.scale(80, 800)):
+        thr = rng.choice([0, 4, 8, 64])
+        progs = [[('q', k) for k in range(1, rng.randint(2, 5))], [('z', thr)]]
+        if i % 2:
+            progs.insert(1, [(rng.choice('qf'), 20 + k) for k in range(rng.randint(1, 3))])
+        progs[-1 if i % 3 else 0].append(('d', 0))
+        bias = rng.random()
+
+        def choose(en, n, bias=bias):
+            users = [x for x in en if x != 0]
+            if users and rng.random() < 0.4 + bias / 2:
+                return rng.choice(users)
+            return rng.choice(en)
+        r = scenario(C, E, progs, choose, 'plain')
+        label = 'set-compression(%d) processed while packets are queued' % thr
+        ctx.case(('mid-compress', prog_str(progs), tuple(r['ran'])), sample={'programs': prog_str(progs), 'kind': 'mid-stream compression'})
+        ctx.count('mid_compress_walks')
+        log = r['log']
+        zat = next((j for j, e in enumerate(log) if e[1] == 'zon'), None)
+        # the frame format is chosen when the write of a packet BEGINS: at its `pop` (queued) or at the lock
+        # acquisition that precedes its first send (forced)
+        first_snd = {}
+        last_acq = {}
+        for j, e in enumerate(log):
+            if e[1] in ('acq', 'try'):
+                last_acq[e[0]] = j
+            elif e[1] == 'pop':
+                first_snd.setdefault(e[2], j)
+            elif e[1] == 'snd' and e[3] == 0:
+                first_snd.setdefault(e[2], last_acq.get(e[0], j))
+        halves = {}
+        for _, p_, c_, b_ in r['wire']:
+            halves.setdefault(p_, {})[c_] = bytes(b_)
+        bad = None
+        for p_, h in halves.items():
+            if 0 not in h or 1 not in h:
+                continue
+            want_comp = zat is not None and first_snd.get(p_, -1) > zat
+            msg = ('m%d' % p_ + 'x' * (p_ % 7)).encode()
+            payload = rc.varint(0x03) + rc.varint(len(msg)) + msg
+            body = h[1]
+            try:
+                if want_comp:
+                    dl, q = rc.read_varint(body, 0)
+                    got_payload = zlib.decompress(body[q:]) if dl else body[q:]
+                    okf = (dl == 0 or dl == len(got_payload)) and got_payload == payload
+                else:
+                    okf = body == payload
+            except Exception:
+                okf = False
+            if not okf or h[0] != rc.varint(len(body)):
+                bad = 'packet %d, whose write began %s the switch, is not a well-formed %s frame: %s %s' % (
+                    p_, 'after' if want_comp else 'before', 'compressed-format' if want_comp else 'plain', h[0].hex(), body.hex()[:40])
+                break
+        if bad:
+            ctx.violation('%s: %s' % (label, bad), {'programs': prog_str(progs), 'schedule': r['ran'][:300]},
+                          key={'programs': prog_str(progs), 'schedule': r['ran'][:300], 'kind': 'mid-compress'})
+        if r['errors']:
+            ctx.violation('%s: a thread raised: %r' % (label, r['errors'][:2]), {'programs': prog_str(progs), 'schedule': r['ran'][:300]},
+                          key={'programs': prog_str(progs), 'schedule': r['ran'][:300], 'kind': 'thread-error'})
     # ---- bulk: more queued packets than the networking thread writes per batch, then a graceful disconnect
     for i in range(ctx.scale(2, 6)):
         nq = [301, 310, 650, 305, 320, 900][i]
